@@ -22,7 +22,8 @@
 (*     kind = "val"  a number     (ex = TRUE: exactly n/d)                   *)
 (*     kind = "err"  an in-band error (what = syntax | div0 | domain |       *)
 (*                   overflow)                                               *)
-(*     kind = "exc"  an exception escapes (only with as-is deviations)       *)
+(*     kind = "exc"  an exception escapes or the call does not return (only  *)
+(*                   with as-is deviations)                                  *)
 (* Dev = set of as-is behaviours of the code that are switched on; {} is the *)
 (* ideal (= the code with proposed_fixes/C05-expr*.diff, C18-expr*.diff).    *)
 EXTENDS Integers, Sequences, FiniteSets, TLC
@@ -206,7 +207,9 @@ Pow10(k) == CASE k = 0 -> 1 [] k = 1 -> 10 [] k = 2 -> 100 [] k = 3 -> 1000 [] k
 
 \* x e y  =  x * 10^y
 EV(a, b) ==
-  IF b.ex /\ b.n > 300 * b.d THEN Raise("overflow")      \* 10^y alone overflows
+  IF Huge(b) /\ "EIntegerLoopUnbounded" \in Dev /\ (b.sg = "p" \/ IsZero(a))
+  THEN Exc("hang")      \* as-is: binary_e_fn multiplies / divides by 10 in a loop |y| times
+  ELSE IF b.ex /\ b.n > 300 * b.d THEN Raise("overflow")      \* 10^y alone overflows
   ELSE IF Huge(b) THEN (IF b.sg = "n" THEN Zero ELSE Raise("overflow"))
   ELSE IF ~b.ex THEN            \* exponent known only roughly: may still overflow
        (IF Tiny(b) THEN a ELSE IF Huge(a) THEN Raise("overflow") ELSE Ix(IF a.ex THEN "u" ELSE a.sg, "mid"))
